@@ -22,7 +22,39 @@ theorem C04_scan_if (pre post : List Instruction) (kwIf : Str) (cond : List Str)
     let is := pre ++ instrsFrom pre.length st.flatten ++ post
     findCommands ifTables is (pre.length + 1) =
       .ok ⟨(elseOffsets body elifs kwElse).map (pre.length + ·), pre.length + st.flatten.length - 1⟩ := by
-  sorry
+  intro st is
+  simp only [Stmt.wf, Bool.and_eq_true] at h
+  simp only [Stmt.noFn, Bool.and_eq_true] at hn
+  obtain ⟨⟨⟨⟨hIf, hbw⟩, hew⟩, helse⟩, hEnd⟩ := h
+  have hb := scanBlock .kIf is body hbw hn.1.1
+  have he := scanElifs .kIf is elifs hew hn.1.2
+  have hel : kwElse.isSome = true → ScanP .kIf is elseBody.flatten (fun _ => []) := by
+    intro hs
+    cases kwElse with
+    | none => cases hs
+    | some k =>
+      simp only [Bool.and_eq_true] at helse
+      exact scanBlock .kIf is elseBody helse.2 hn.2
+  have hElse : ∀ k, kwElse = some k → isElseKw k = true := by
+    intro k hk
+    subst hk
+    simp only [Bool.and_eq_true] at helse
+    exact helse.1
+  have hin := scan_ifInner body.flatten elifs.flatten kwElse elseBody.flatten
+    (fun off => elifAbs off elifs) hElse hb he hel
+  refine (scan_top (K := .kIf) pre post (mkInstr none kwIf cond) kwEnd _ _ hEnd hin).trans ?_
+  have hoff := elseOffsets_go_map pre.length elifs (1 + body.flatten.length) kwElse
+  have hlen : st.flatten.length =
+      1 + (body.flatten ++ elifs.flatten ++ elsePart kwElse elseBody.flatten).length + 1 := by
+    simp only [st, Stmt.flatten, elsePart, List.length_cons, List.length_append, List.length_nil]
+    omega
+  rw [hlen]
+  simp only [elseOffsets, hoff, ifMids, midK, if_true]
+  congr 2
+  · congr 1
+    · congr 1; omega
+    · cases kwElse <;> simp <;> omega
+  · omega
 
 /-- `while` loops -/
 theorem C04_scan_while (pre post : List Instruction) (kw : Str) (cond : List Str) (body : Block)
@@ -31,7 +63,16 @@ theorem C04_scan_while (pre post : List Instruction) (kw : Str) (cond : List Str
     let st := Stmt.whileLoop kw cond body kwEnd
     let is := pre ++ instrsFrom pre.length st.flatten ++ post
     findCommands whileTables is (pre.length + 1) = .ok ⟨[], pre.length + st.flatten.length - 1⟩ := by
-  sorry
+  intro st is
+  simp only [Stmt.wf, Bool.and_eq_true] at h
+  simp only [Stmt.noFn] at hn
+  have hb := scanBlock .kWhile is body h.1.2 hn
+  refine (scan_top (K := .kWhile) pre post (mkInstr none kw cond) kwEnd _ _ h.2 hb).trans ?_
+  have hlen : st.flatten.length = 1 + body.flatten.length + 1 := by
+    simp only [st, Stmt.flatten, List.length_cons, List.length_append, List.length_nil]
+    omega
+  rw [hlen]
+  congr 2
 
 /-- `for … in` loops -/
 theorem C04_scan_for (pre post : List Instruction) (kw : Str) (v handle : Str) (body : Block)
@@ -40,7 +81,16 @@ theorem C04_scan_for (pre post : List Instruction) (kw : Str) (v handle : Str) (
     let st := Stmt.forIn kw v handle body kwEnd
     let is := pre ++ instrsFrom pre.length st.flatten ++ post
     findCommands forTables is (pre.length + 1) = .ok ⟨[], pre.length + st.flatten.length - 1⟩ := by
-  sorry
+  intro st is
+  simp only [Stmt.wf, Bool.and_eq_true] at h
+  simp only [Stmt.noFn] at hn
+  have hb := scanBlock .kFor is body h.1.2 hn
+  refine (scan_top (K := .kFor) pre post (mkInstr none kw [v, "in".toList, handle]) kwEnd _ _ h.2 hb).trans ?_
+  have hlen : st.flatten.length = 1 + body.flatten.length + 1 := by
+    simp only [st, Stmt.flatten, List.length_cons, List.length_append, List.length_nil]
+    omega
+  rw [hlen]
+  congr 2
 
 /-- function definitions (bodies without nested definitions): the end of the definition -/
 theorem C04_scan_fn (pre post : List Instruction) (kw : Str) (isSc : Bool) (name : Str) (body : Block)
@@ -48,7 +98,16 @@ theorem C04_scan_fn (pre post : List Instruction) (kw : Str) (isSc : Bool) (name
     let st := Stmt.fnDef kw isSc name body kwEnd
     let is := pre ++ instrsFrom pre.length st.flatten ++ post
     findCommands fnTables is (pre.length + 1) = .ok ⟨[], pre.length + st.flatten.length - 1⟩ := by
-  sorry
+  intro st is
+  simp only [Stmt.wf, Bool.and_eq_true] at h
+  have hb := scanBlock .kFn is body h.1.2 hn
+  refine (scan_top (K := .kFn) pre post
+    (mkInstr none kw (if isSc then ["<scope>".toList, name] else [name])) kwEnd _ _ h.2 hb).trans ?_
+  have hlen : st.flatten.length = 1 + body.flatten.length + 1 := by
+    simp only [st, Stmt.flatten, List.length_cons, List.length_append, List.length_nil]
+    omega
+  rw [hlen]
+  congr 2
 
 /-- the regenerated tables are mutually consistent (what the proofs above rely on):
     each scanner counts the openers / closers of all OTHER block kinds -/
@@ -62,6 +121,21 @@ theorem C04_tables_consistent :
     (∀ k, isEndWhileKw k = true ↔ whileTables.endNames.contains k = true) ∧
     (∀ k, isEndForKw k = true ↔ forTables.endNames.contains k = true) ∧
     (∀ k, isEndFnKw k = true ↔ fnTables.endNames.contains k = true) := by
-  sorry
+  refine ⟨?_, ?_, ?_, ?_, ?_, ?_, ?_, ?_, ?_⟩
+  · exact forall_contains_or3 (by decide)
+  · exact forall_contains_or3 (by decide)
+  · exact forall_contains_or3 (by decide)
+  · exact forall_contains_or3 (by decide)
+  · intro k
+    exact ⟨forall_contains_or2 (by decide) k,
+      forall_contains (p := fun k => isElifKw k = true ∨ isElseKw k = true) (by decide) k⟩
+  · intro k
+    exact ⟨forall_contains_or (by decide) k, forall_contains (by decide) k⟩
+  · intro k
+    exact ⟨forall_contains_or (by decide) k, forall_contains (by decide) k⟩
+  · intro k
+    exact ⟨forall_contains_or (by decide) k, forall_contains (by decide) k⟩
+  · intro k
+    exact ⟨forall_contains_or (by decide) k, forall_contains (by decide) k⟩
 
 end Duck
